@@ -27,48 +27,49 @@ def job_spectrum(res, n, N, spacing, buckets, cutoff_on, wake_first=False):
     if wake_first:
         # the statement is about one and the same field object: the spectrum must be the same whether or not the wake was requested before
         Pold = sym_profiles(ex, st, R, n, nb, tag='old'); st = ex.run1(st, 'e_wake', [R['field']]); P = sym_profiles(ex, st, R, n, nb)
-    st = ex.run1(st, 'e_csr', [R['field'], fc if cutoff_on else Fraction(0)]); account(res, ex, mod, [st])
-    spec = get_reals(ex, st, st.retval, nb * N)
-    pw = get_reals(ex, st, ex.run1(st, 'e_csrpower', [R['field']]).retval, nb)
-    dq = Fraction(f32(f32(12.0) / f32(n - 1))); renorm0 = Fraction(f32(float(dq) * float(dq)))      # _formfactorrenorm = delta^2 in float
-    fmax = Fraction(f32(1.0 / float(dq))); df = Fraction(f32(float(fmax) / f32(N - 1)))
-    axf = [Fraction(f32(float(df) * i)) for i in range(N)]
-    sch = Fraction(f32(2.99792458e8 / f32(2e-3)))
-    expax = [e > 0 for a, e in recs] + [z3.Implies(a <= 0, e <= 1) for a, e in recs]
-    bad = []; badp = []; want_all = []
-    for b in range(nb):
-        buf = [P[b * n + x] if x < n else z3.RealVal(0) for x in range(N)]
-        F = fft.apply(0, N, buf)
-        tot = z3.RealVal(0)
-        for k in range(N):
-            if k <= N // 2: nrm = F[2 * k] * F[2 * k] + F[2 * k + 1] * F[2 * k + 1]
-            else: nrm = z3.RealVal(0)                   # cells above N/2 of the r2c output are never written: initial zeros
-            w = renorm0 * Z[k][0] * nrm
-            want_all.append((b, k, w, nrm))
-            if not cutoff_on: bad.append(spec[b * N + k] != w)
-            tot = tot + df * spec[b * N + k]
-        badp.append(pw[b] != tot)
-    def cex(m): return {'replay': 'csr', 'n': n, 'N': N, 'spacing': spacing, 'buckets': list(buckets), 'rho': [mval(m, v) for v in P], 'z': [mval(m, c) for zz in Z for c in zz], 'wake_first': wake_first}
-    if not cutoff_on:
-        prove(res, 'n=%d N=%d buckets %s: CSR spectrum[b][k] == delta_q^2 * Re Z_k * |r2c(profile of bunch b alone)_k|^2 for k <= N/2 and 0 above (all %d cells)' % (n, N, list(buckets), nb * N),
-              st.pc, z3.Or(*bad), key='csr-spectrum-structure', cex_fn=cex)
-    def cexp(m): return dict(cex(m), what='intensity', cutoff=3e11 if cutoff_on else 0.0, freq_delta=float(R['freq_delta']))
-    prove(res, 'n=%d N=%d buckets %s cutoff=%s: CSR intensity[b] == delta_f * sum_k spectrum[b][k]' % (n, N, list(buckets), cutoff_on), st.pc, z3.Or(*badp), key='csr-intensity-sum', cex_fn=cexp)
-    # signs, decided per frequency bin (the transform values enter only through re^2 + im^2)
-    for b in range(nb):
-        for k in range(N):
-            (bb, kk, w, nrm) = want_all[b * N + k]; sp = spec[b * N + k]
-            ctx = list(st.pc) + [Z[k][0] >= 0] + expax
-            goal = z3.Or(sp < 0, sp > w) if cutoff_on else (sp < 0)
-            prove(res, 'n=%d N=%d cutoff=%s bunch %d bin %d: Re Z_k >= 0 => %s for every profile' % (n, N, cutoff_on, b, k, '0 <= spectrum_cut <= spectrum' if cutoff_on else 'spectrum >= 0'),
-                  ctx, goal, key='csr-nonnegative', cex_fn=cex, timeout_ms=30000)
-    # intensity is a non-negative combination of the spectrum: abstract each spectral value by a non-negative variable
-    sv = [z3.Real('s%d' % i) for i in range(nb * N)]
-    prove(res, 'n=%d N=%d: intensity (delta_f * sum_k spectrum, obligation above) is >= 0 when every spectral value is' % (n, N), [v >= 0 for v in sv],
-          z3.Or(*[sum([df * sv[b * N + k] for k in range(N)], z3.RealVal(0)) < 0 for b in range(nb)]), key='csr-nonnegative')
-    if cutoff_on:
-        witness(res, 'cutoff branch evaluated exp() (%d symbolic calls)' % len(recs), [], z3.BoolVal(len(recs) >= 1))
-    witness(res, 'spectrum depends on Re Z_1 (N=%d)' % N, [], z3.BoolVal(occurs(spec[1], Z[1][0]) and not occurs(spec[1], Z[1][1])))
+    csr_paths = run_paths(ex, st, 'e_csr', [R['field'], fc if cutoff_on else Fraction(0)]); account(res, ex, mod, csr_paths)      # every path of the call (code that decides on the data forks): each one must meet the obligations
+    for st in csr_paths:
+        spec = get_reals(ex, st, st.retval, nb * N)
+        pw = get_reals(ex, st, ex.run1(st, 'e_csrpower', [R['field']]).retval, nb)
+        dq = Fraction(f32(f32(12.0) / f32(n - 1))); renorm0 = Fraction(f32(float(dq) * float(dq)))      # _formfactorrenorm = delta^2 in float
+        fmax = Fraction(f32(1.0 / float(dq))); df = Fraction(f32(float(fmax) / f32(N - 1)))
+        axf = [Fraction(f32(float(df) * i)) for i in range(N)]
+        sch = Fraction(f32(2.99792458e8 / f32(2e-3)))
+        expax = [e > 0 for a, e in recs] + [z3.Implies(a <= 0, e <= 1) for a, e in recs]
+        bad = []; badp = []; want_all = []
+        for b in range(nb):
+            buf = [P[b * n + x] if x < n else z3.RealVal(0) for x in range(N)]
+            F = fft.apply(0, N, buf)
+            tot = z3.RealVal(0)
+            for k in range(N):
+                if k <= N // 2: nrm = F[2 * k] * F[2 * k] + F[2 * k + 1] * F[2 * k + 1]
+                else: nrm = z3.RealVal(0)                   # cells above N/2 of the r2c output are never written: initial zeros
+                w = renorm0 * Z[k][0] * nrm
+                want_all.append((b, k, w, nrm))
+                if not cutoff_on: bad.append(spec[b * N + k] != w)
+                tot = tot + df * spec[b * N + k]
+            badp.append(pw[b] != tot)
+        def cex(m): return {'replay': 'csr', 'n': n, 'N': N, 'spacing': spacing, 'buckets': list(buckets), 'rho': [mval(m, v) for v in P], 'z': [mval(m, c) for zz in Z for c in zz], 'wake_first': wake_first}
+        if not cutoff_on:
+            prove(res, 'n=%d N=%d buckets %s: CSR spectrum[b][k] == delta_q^2 * Re Z_k * |r2c(profile of bunch b alone)_k|^2 for k <= N/2 and 0 above (all %d cells)' % (n, N, list(buckets), nb * N),
+                  st.pc, z3.Or(*bad), key='csr-spectrum-structure', cex_fn=cex)
+        def cexp(m): return dict(cex(m), what='intensity', cutoff=3e11 if cutoff_on else 0.0, freq_delta=float(R['freq_delta']))
+        prove(res, 'n=%d N=%d buckets %s cutoff=%s: CSR intensity[b] == delta_f * sum_k spectrum[b][k]' % (n, N, list(buckets), cutoff_on), st.pc, z3.Or(*badp), key='csr-intensity-sum', cex_fn=cexp)
+        # signs, decided per frequency bin (the transform values enter only through re^2 + im^2)
+        for b in range(nb):
+            for k in range(N):
+                (bb, kk, w, nrm) = want_all[b * N + k]; sp = spec[b * N + k]
+                ctx = list(st.pc) + [Z[k][0] >= 0] + expax
+                goal = z3.Or(sp < 0, sp > w) if cutoff_on else (sp < 0)
+                prove(res, 'n=%d N=%d cutoff=%s bunch %d bin %d: Re Z_k >= 0 => %s for every profile' % (n, N, cutoff_on, b, k, '0 <= spectrum_cut <= spectrum' if cutoff_on else 'spectrum >= 0'),
+                      ctx, goal, key='csr-nonnegative', cex_fn=cex, timeout_ms=30000)
+        # intensity is a non-negative combination of the spectrum: abstract each spectral value by a non-negative variable
+        sv = [z3.Real('s%d' % i) for i in range(nb * N)]
+        prove(res, 'n=%d N=%d: intensity (delta_f * sum_k spectrum, obligation above) is >= 0 when every spectral value is' % (n, N), [v >= 0 for v in sv],
+              z3.Or(*[sum([df * sv[b * N + k] for k in range(N)], z3.RealVal(0)) < 0 for b in range(nb)]), key='csr-nonnegative')
+        if cutoff_on:
+            witness(res, 'cutoff branch evaluated exp() (%d symbolic calls)' % len(recs), [], z3.BoolVal(len(recs) >= 1))
+        witness(res, 'spectrum depends on Re Z_1 (N=%d)' % N, [], z3.BoolVal(occurs(spec[1], Z[1][0]) and not occurs(spec[1], Z[1][1])))
 
 def job_parseval(res, n, N=4):
     """(ii) N = 4, exact DFT semantics, single bunch in bucket 0 (as main builds the radiation field): sum_{0<k<N/2} spectrum_k/dq^2 == 1/2 sum_x rho_x Wt_x - 1/2 Re Z_0 |F_0|^2, Wt = unscaled c2r output"""
